@@ -15,7 +15,8 @@ from ..models import authserver as A
 
 PROPERTY_ID = 'C06'
 LEVEL = 'exploration'
-RULE = ('cookie_overlap: three cookie exchanges of one user in every order, finished or cancelled, optionally with one of them '
+RULE = ('many_logins: 150 / 400 overlapping cookie logins (finished, cancelled, mixed) in a process whose descriptor limit is 48 '
+        'above current use, then the exchange that was open all along answers with the right cookie. cookie_overlap: three cookie exchanges of one user in every order, finished or cancelled, optionally with one of them '
         'begun more than the cookie lifetime before the others (its keyring entry back-dated by 31 s): every non-aged exchange '
         'answered with the right cookie is accepted. '
         'scripted: sequences of authentication lines over a 12-letter abstract alphabet (AUTH without mechanism / unknown '
@@ -747,6 +748,80 @@ def run_cookie_overlap(case):
     return out
 
 
+def enum_many_logins(tier):
+    """A long-running bus: hundreds of cookie logins, each finishing (or cancelled) while another exchange is still open,
+    in a process whose descriptor limit is 48 above what it already uses - then the exchange that was open all along
+    answers with the right cookie."""
+    for n in ((150, 400) if tier == 'quick' else (150, 400, 1500)):
+        for ends in ('finish', 'cancel', 'mixed'):
+            yield {'n': n, 'ends': ends}
+
+
+def run_many_logins(case):
+    import resource
+    import txdbus.protocol as P
+    saved = P._is_linux
+    scratch = tempfile.mkdtemp(prefix='verif-c06-')
+    os.chmod(scratch, 0o700)
+    out = []
+    soft, hard = resource.getrlimit(resource.RLIMIT_NOFILE)
+    try:
+        user = __import__('pwd').getpwuid(os.getuid()).pw_name
+
+        def begin(tag):
+            log = _newlog()
+            srv = _real_server('none', scratch, log)
+            N.deliver(srv, b'\0')
+            r = _exchange(srv, b'AUTH DBUS_COOKIE_SHA1 ' + binascii.hexlify(user.encode()))
+            if not r or r[0][0] != 'DATA':
+                raise _Refused('%s: no challenge: %r' % (tag, r))
+            ctx, cid, schal = binascii.unhexlify(r[0][1].strip()).split()
+            cookie = _read_cookie(scratch, ctx, cid)
+            if cookie is None:
+                raise _Refused('%s: keyring entry %r missing' % (tag, cid))
+            cchal = binascii.hexlify(hashlib.sha1(tag.encode()).digest())
+            resp = cchal + b' ' + binascii.hexlify(hashlib.sha1(schal + b':' + cchal + b':' + cookie).digest())
+            return srv, log, resp
+
+        used = len(os.listdir('/proc/self/fd'))
+        resource.setrlimit(resource.RLIMIT_NOFILE, (min(hard, used + 48), hard))
+        try:
+            parked = begin('parked')
+            for i in range(case['n']):
+                srv, log, resp = begin('login-%d' % i)
+                how = case['ends'] if case['ends'] != 'mixed' else ('finish' if i % 2 else 'cancel')
+                if how == 'cancel':
+                    _exchange(srv, b'CANCEL')
+                else:
+                    r = _exchange(srv, b'DATA ' + binascii.hexlify(resp))
+                    if not r or r[0][0] != 'OK':
+                        out.append(Disc('many.right-cookie-refused', 'login %d of %d answered %r' % (i, case['n'], r)))
+                        break
+                    _exchange(srv, b'BEGIN')
+                N.close(srv)
+            if not out:
+                srv, log, resp = parked
+                r = _exchange(srv, b'DATA ' + binascii.hexlify(resp))
+                if not r or r[0][0] != 'OK':
+                    out.append(Disc('many.parked-client-refused', 'after %d other logins (%s) the exchange that was open all '
+                                    'along answered with the right cookie and got %r' % (case['n'], case['ends'], r)))
+        finally:
+            resource.setrlimit(resource.RLIMIT_NOFILE, (soft, hard))
+    except _Refused as e:
+        out.append(Disc('many.no-challenge', str(e)))
+    except Exception as e:
+        out.append(Disc(exc_key(e, 'many.exception'), exc_detail(e)))
+    finally:
+        resource.setrlimit(resource.RLIMIT_NOFILE, (soft, hard))
+        P._is_linux = saved
+        shutil.rmtree(scratch, ignore_errors=True)
+    return out
+
+
+class _Refused(Exception):
+    pass
+
+
 COOKIE_VARIANTS = ['right', 'right', 'concurrent', 'wrong-cookie', 'wrong-challenge', 'swapped', 'truncated', 'empty', 'one-field',
                    'hash-of-nothing', 'replay']
 
@@ -782,6 +857,10 @@ SUBCHECKS = [
              exhaustive_note='9 near-commands (foreign bytes inside a command word, lower case, glued suffix, a client-side '
                              'word) and every non-protocol word the authenticators would dispatch on by name, x 7 prefixes x 4 '
                              'continuations x 2 mechanism scripts'),
+    Subcheck('many_logins', run_many_logins, lambda c: (True, [c['ends'], 'n=%d' % c['n']]), enumerate=enum_many_logins,
+             shards={'quick': 3, 'thorough': 3},
+             exhaustive_note='150 / 400 (/ 1500) overlapping cookie logins, finished / cancelled / mixed, under a descriptor limit 48 '
+                             'above current use, then the exchange open all along answers'),
     Subcheck('framing', run_framing, lambda c: (True, [c['f']]), enumerate=enum_framing,
              shards={'quick': 1, 'thorough': 1},
              exhaustive_note='listed framing faults at the 16384/16385 boundary'),
